@@ -360,6 +360,43 @@ impl Exec {
     // -------------------------------------------------------------------------------------
     // C09 (pacing profile only)
 
+    /// Credited work of the running cycle, read from the raw counters (hook), against the number of
+    /// objects that existed in it (`total + released in this cycle`, also from the counters): every
+    /// object is marked, traced (net of barrier re-queues), kept, destructed and released at most once
+    /// per cycle, so no counter exceeds that number and the credits never exceed rho x it.  This is
+    /// the premise the completion bound is derived from: a path that credits an object twice admits a
+    /// workload (every object on that path) for which the bound fails.
+    fn c09_credit_check(&mut self, ai: usize, what: &str) {
+        let Some(m) = self.metrics[ai].as_ref() else { return };
+        let pacing = pacing_preset(self.model.arenas[ai].preset);
+        let k = m.verif_counters();
+        let n = (k.total_gcs + k.freed_gcs) as f64;
+        self.cov.c09_credit_checks += 1;
+        for (name, v) in [("marked", k.marked_gcs), ("traced", k.traced_gcs), ("kept", k.remembered_gcs), ("destructed", k.dropped_gcs), ("released", k.freed_gcs), ("kept or released", k.remembered_gcs + k.freed_gcs)] {
+            if v as f64 > n {
+                self.violate("C09", "over-credited", format!("{what}: the running cycle has credited {v} objects as {name}, but only {n} objects have existed in it ({} now, {} released)", k.total_gcs, k.freed_gcs));
+                return;
+            }
+        }
+        if self.bk[ai].pacing_changed_in_cycle {
+            return;
+        }
+        let credits = k.marked_gcs as f64 * pacing.mark_factor
+            + k.traced_gcs as f64 * pacing.trace_factor
+            + k.remembered_gcs as f64 * pacing.keep_factor
+            + k.dropped_gcs as f64 * pacing.drop_factor
+            + k.freed_gcs as f64 * pacing.free_factor;
+        self.bk[ai].c09.credits = credits;
+        let r = rho(&pacing);
+        if r < 1.0 && credits > r * n + 1e-6 * (1.0 + n) {
+            self.violate(
+                "C09",
+                "over-credited",
+                format!("{what}: the running cycle has been credited {credits} units of work (marked {}, traced {}, kept {}, destructed {}, released {}) for {n} objects; with every per-object path summing to at most rho = {r} it can be at most {}", k.marked_gcs, k.traced_gcs, k.remembered_gcs, k.dropped_gcs, k.freed_gcs, r * n),
+            );
+        }
+    }
+
     #[allow(clippy::too_many_arguments)]
     fn c09_after_call(&mut self, ai: usize, api: Api, ph0: u8, ph1: u8, debt0: f64, debt1: f64, count0: usize, count1: usize, sum: &EvSummary, what: &str) {
         let pacing = pacing_preset(self.model.arenas[ai].preset);
@@ -421,18 +458,8 @@ impl Exec {
             c.tainted = true;
         }
         let tracked = c.tracked && !c.tainted && !self.bk[ai].pacing_changed_in_cycle;
-        if ph1 != 0 && tracked {
-            // credited work: every object is marked, traced, kept, dropped and freed at most once
-            // per cycle, so the credits of a cycle never exceed rho x (objects that existed in it)
-            let c = &mut self.bk[ai].c09;
-            c.credits += (debt0 - debt1).max(0.0);
-            let r = rho(&pacing);
-            let n = c.h + (allocs - c.allocs_at_wake) as f64;
-            self.cov.c09_credit_checks += 1;
-            if r < 1.0 && c.credits > r * n + 1e-6 * (1.0 + n) {
-                let cr = c.credits;
-                self.violate("C09", "over-credited", format!("{what}: the running cycle has been credited {cr} units of work for {n} objects (H + allocations since wake-up); with every per-object path summing to at most rho = {r} it can be at most {}", r * n));
-            }
+        if ph1 != 0 {
+            self.c09_credit_check(ai, what);
         }
         if ph1 != 0 {
             if api == Api::CycleDebt && tracked {
@@ -574,13 +601,10 @@ impl Exec {
                 }
             }
         }
-        // C09 credit accounting: forward barriers / resurrect mark on the spot and are credited
-        if self.opts.c09 && ph0 != 0 && !st.pacing_changed && st.neg_adjust == 0.0 && st.pos_adjust == 0.0 && self.bk[ai].c09.tracked {
-            let earned = debt0 + st.allocs as f64 - debt1;
-            // both readings must be unclamped, or the difference says nothing about credits
-            if earned > 0.0 && debt1 > 0.0 && debt0 > 0.0 {
-                self.bk[ai].c09.credits += earned;
-            }
+        // C09 credit accounting: forward barriers / resurrect mark on the spot and are credited,
+        // backward barriers on traced objects take their trace credit back
+        if self.opts.c09 && ph0 != 0 && ph1 != 0 {
+            self.c09_credit_check(ai, what);
         }
         // C09 sleep clause: debt must turn positive exactly when the allowance is exceeded
         if self.opts.c09 && ph1 == 0 {
